@@ -63,9 +63,22 @@ func cacheSpecs() []rewrite.PkgSpec {
 	}
 }
 
+func lfSpecs() []rewrite.PkgSpec {
+	return []rewrite.PkgSpec{
+		{Dir: repo("lockedfile"), Subst: substLF, GoStmts: true},
+		{Dir: repo("lockedfile/internal/filelock"), Subst: substLF, GoStmts: true},
+	}
+}
+
 func repo(p string) string { return filepath.Join(repoRoot, p) }
 
 var props = map[string]propCfg{
+	"C06": {
+		Harness:  "./harness/c06",
+		Specs:    lfSpecs(),
+		Quick:    tierCfg{16, 20},
+		Thorough: tierCfg{16, 600},
+	},
 	"C09": {
 		Harness:  "./harness/c09",
 		Specs:    []rewrite.PkgSpec{{Dir: repo("par"), Subst: substSync, GoStmts: true}},
